@@ -36,6 +36,24 @@ def convert_slice(_slice: Slice) -> Call:
     )
 
 
+def convert_index(index: expr) -> expr:
+    """
+    Convert the index of a subscript to an ordinary expression:
+    slices (also those inside `a[1:2, 3]`) become calls of the slice function
+    """
+    if isinstance(index, Slice):
+        return convert_slice(index)
+    if isinstance(index, Tuple):
+        return Tuple(
+            elts=[
+                convert_slice(item) if isinstance(item, Slice) else item
+                for item in index.elts
+            ],
+            ctx=Load(),
+        )
+    return index
+
+
 def list_wrapper(nodes: list[expr]) -> expr:
     return List(elts=nodes, ctx=Load())
 
